@@ -38,7 +38,7 @@ import ast
 
 from ..dataflow import is_shared
 from ..lifecycle import Lifecycle
-from ..repo import AnalysisError, FuncInfo, own_nodes
+from ..repo import AnalysisError, FuncInfo, dotted, own_nodes
 from .common import reorder_ops, source_pos, step_of
 
 MANIFEST = {
@@ -57,6 +57,7 @@ MANIFEST = {
         "equality."
         " Also decided: no function of these modules accumulates into a mutable default argument."
         " Also decided: no for-loop variable of these modules is read after its loop (statement left one indentation level too shallow)."
+        " Also decided: no attribute of any object is bound to instance data in one method and modified in place through that attribute in another; the Taillard reader builds one job per line (pooled numbers cut by computed bounds are reported); no per-job / per-operation view is accumulated over operations_by_machine."
     ),
     "note": "Transformation.__call__ renaming an instance that apply returned unchanged is reported as an observation (outside C14's list of actors). Alias model as in C05.",
     "technique": "typed who-may-write sweep with interprocedural alias analysis + dictionary key agreement + loop progress (must-dispatch-or-raise) path check",
@@ -301,6 +302,57 @@ def run(ctx):
                                 "the instance's own array",
                                 loc=m.loc(n),
                             )
+    # (4) an attribute of any object bound to a cached view / instance data
+    #     without a copy, and modified in place through that attribute by
+    #     some method of the class (two sites that each look fine alone)
+    n_fields = 0
+    for c in repo.classes.values():
+        if c.qualname in (inst.qualname, op.qualname):
+            continue
+        bound: dict[str, tuple] = {}
+        for m in c.methods.values():
+            if not m.params:
+                continue
+            me = m.params[0]
+            for n in own_nodes(m.node):
+                if isinstance(n, ast.Assign):
+                    pairs = [(t, n.value) for t in n.targets]
+                elif isinstance(n, ast.AnnAssign) and n.value is not None:
+                    pairs = [(n.target, n.value)]
+                else:
+                    continue
+                for t, v in pairs:
+                    if not (isinstance(t, ast.Attribute) and isinstance(t.value, ast.Name) and t.value.id == me):
+                        continue
+                    n_fields += 1
+                    why = protected(m, v, c)
+                    if why:
+                        bound.setdefault(t.attr, (why, m, n))
+        if not bound:
+            continue
+        for k2 in [c] + repo.subclasses(c.qualname, strict=True):
+            for m in k2.methods.values():
+                if not m.params:
+                    continue
+                for ev in eff.events(m, k2):
+                    if ev.kind != "write" or ev.data.get("op") == "loopvar":
+                        continue
+                    obj = eff.mutated_object(ev)
+                    if obj is None:
+                        continue
+                    for o in flow.origins(m, obj, k2):
+                        b = _unwrap(o)
+                        if b[0] == "attr" and b[1] == m.params[0] and b[2] and b[2][0] in bound:
+                            why, m0, n0 = bound[b[2][0]]
+                            chk.violation(
+                                "R14.a", m, ev.node,
+                                f"`{ev.data.get('text')}` modifies `self.{b[2][0]}` in place, and {m0.name} binds that attribute "
+                                f"to {why} without copying ({m0.loc(n0)}): the instance's own data is overwritten and every "
+                                "later user of the instance (a second dispatcher, the next episode) sees the change",
+                                loc=ev.loc,
+                            )
+                            break
+    chk.analysed["attribute_bindings_swept"] = n_fields
     chk.analysed["write_sites_swept"] = n_sites
     chk.analysed["functions_swept"] = n_funcs
     chk.analysed["feature_table_bindings"] = n_feat
@@ -322,6 +374,100 @@ def run(ctx):
     ctx.attempt(_no_hang, ctx)
     # ---------------------------------------------------------------- R14.d
     ctx.attempt(_numbering, ctx, soa)
+    from .common import check_per_machine_double_count
+
+    ctx.attempt(check_per_machine_double_count, ctx, "R14.k", (inst.module.name,), "the instance's derived views")
+    # ---------------------------------------------------------------- R14.j
+    ctx.attempt(_taillard_reader, ctx, inst, op)
+
+
+def _taillard_reader(ctx, inst, op):
+    """R14.j - the Taillard reader makes one job out of each data line (all of
+    that line's numbers): the format has no other job delimiter, and jobs need
+    not have the same number of operations."""
+    chk, repo = ctx.chk, ctx.repo
+    chk.rule("R14.j", "Taillard reader: one job per data line, built from all the numbers of that line (no fixed row length)")
+    rd = inst.methods.get("from_taillard_file")
+    if rd is None:
+        raise AnalysisError("JobShopInstance.from_taillard_file vanished")
+    # the reader with everything it delegates to (private helpers, new API)
+    funcs, seen, work = [], set(), [(rd, 0)]
+    while work:
+        f, d = work.pop(0)
+        if f.qualname in seen or isinstance(f.node, ast.Lambda):
+            continue
+        seen.add(f.qualname)
+        funcs.append(f)
+        if d >= 3:
+            continue
+        for ev, t, trc in ctx.effects.calls(f, inst if f.cls is not None else None):
+            if t.name == "__init__" or t.module.name != rd.module.name and t.cls is not None:
+                continue
+            if t.cls is not None and t.cls.qualname != inst.qualname:
+                continue
+            work.append((t, d + 1))
+    nodes = [(f, n) for f in funcs for n in own_nodes(f.node)]
+    if not any(
+        isinstance(n, ast.Call) and repo.resolve(f.module.name, dotted(n.func) or "") == op.qualname for f, n in nodes
+    ):
+        raise AnalysisError("from_taillard_file: no Operation(...) construction found in the reader or its helpers")
+
+    def is_split(n):
+        return isinstance(n, ast.Call) and isinstance(n.func, ast.Attribute) and n.func.attr == "split" and not n.args
+
+    splits = [(f, n) for f, n in nodes if is_split(n)]
+    # tokens of several lines pooled into one list: xs.extend(... line.split() ...), xs += ...split()
+    pooled = [
+        (f, n) for f, n in nodes
+        if (isinstance(n, ast.Call) and isinstance(n.func, ast.Attribute) and n.func.attr == "extend" and any(is_split(x) for a in n.args for x in ast.walk(a)))
+        or (isinstance(n, ast.AugAssign) and any(is_split(x) for x in ast.walk(n.value)))
+    ]
+    whole = [
+        (f, n) for f, n in nodes
+        if isinstance(n, ast.Call) and isinstance(n.func, ast.Attribute) and n.func.attr == "split" and not n.args
+        and isinstance(n.func.value, ast.Call) and isinstance(n.func.value.func, ast.Attribute) and n.func.value.func.attr == "read"
+    ]
+    computed = [
+        (f, n) for f, n in nodes
+        if isinstance(n, ast.Subscript) and isinstance(n.slice, ast.Slice)
+        and any(b is not None and not isinstance(b, (ast.Constant, ast.UnaryOp)) for b in (n.slice.lower, n.slice.upper))
+    ]
+    if (pooled or whole) and computed:
+        f, n = computed[0]
+        chk.violation(
+            "R14.j", rd, n,
+            f"the numbers of all lines are pooled into one list and the jobs are cut out of it with computed bounds (`{ast.unparse(n)}`), "
+            "not read line by line: the format delimits jobs by lines only, so jobs of different lengths (or recirculation "
+            "with more operations than machines) lose or swap operations on the way back from Taillard text",
+            loc=f.loc(n),
+        )
+        return
+    if pooled or whole:
+        raise AnalysisError("from_taillard_file: the numbers of several lines are pooled; how jobs are delimited is not recognised")
+    # every split is applied to one line: a loop / comprehension variable (possibly stripped) or a helper's parameter
+    def one_line(f, n):
+        r = n.func.value
+        while isinstance(r, ast.Call) and isinstance(r.func, ast.Attribute) and r.func.attr in ("strip", "rstrip", "lstrip"):
+            r = r.func.value
+        if not isinstance(r, ast.Name):
+            return False
+        if r.id in f.params:
+            return True
+        for x in own_nodes(f.node):
+            if isinstance(x, ast.For) and any(isinstance(y, ast.Name) and y.id == r.id for y in ast.walk(x.target)):
+                return True
+            if isinstance(x, ast.comprehension) and any(isinstance(y, ast.Name) and y.id == r.id for y in ast.walk(x.target)):
+                return True
+            if isinstance(x, ast.NamedExpr) and x.target.id == r.id:
+                return True
+        return any(kind == "value" and isinstance(v, ast.Call) and isinstance(v.func, ast.Attribute) and v.func.attr in ("strip", "rstrip") for kind, v, _ in ctx.flow.defs(f).of(r.id))
+
+    rows = [(f, n) for f, n in splits if one_line(f, n)]
+    if rows and not computed:
+        f, n = rows[0]
+        chk.ok("R14.j", rd.qualname, f.loc(n), f"each job is built from `{ast.unparse(n)}` of one line; no fixed row length")
+    else:
+        raise AnalysisError(f"from_taillard_file: how the jobs are cut out of the text is not recognised ({len(splits)} split calls, {len(computed)} computed slices)")
 
 
 def _dict_returned(fi):
